@@ -52,7 +52,7 @@ def canon_class(c):
 WORDS = ["BLABLA", "ETF", "(BLABLA)", "SOME", "GIC", "01/01/2024", "4.00%", "1Y", "DUE", "INT",
          "4.000%", "(XXXXXX)", "ANOTHER", "5.00%", "2Y", "CPD", "BOND", "5.25", "2030", "12",
          "100.0", "CASH", "US$", "7", "3.5", "1,000", "CL-A", "émis", "N°", "99", "2024",
-         "0.5", "A", "(" + BULLET + ")", "T+1", "50,000.00"]
+         "0.5", "A", "(" + BULLET + ")", "T+1", "50,000.00", "ALLOCATION", "ASSET ALLOCATION", "MARKET VALUE"]
 ALLOCS = ["80.0", "5.0", "15.0", "100.0", "100.00", "0.0", "55.55", "20", "33.333", "1.25", "100", "99.9"]
 FMVS = ["80,000.0", "5,000.1", "15,000.0", "99,999.99", "0", "0.0", "1,234.0", "200,000.0", "7",
         "1,000,000.00", "12.345", "50,000.00"]
@@ -281,8 +281,10 @@ def check_regexes(res, ctx, strings):
 # ------------------------------------------------------------ statements
 MONTHS = ["January", "February", "March", "April", "May", "June", "July", "August", "September", "October",
           "November", "December", "Jan", "Feb", "Sept", "DEC", "mar", "Smarch", "Juno", "Ma", "febré"]
-FILLER = ["Leading garbage", "Account summary\nnothing here", "", "Securities Owned (USD)", "Current year: 2024",
-          "Securities Owned Combined in (USD)", "recurrent month: May 5, 2020", "Page 3"]
+FILLER = ["Leading garbage", "Account summary\nnothing here", "Securities Owned 95,000.00\nCash 5,000.00\nTotal Combined in (CAD) 100,000.00",
+          "Securities Owned (USD)", "Current year: 2024",
+          "Securities Owned Combined in (USD)", "recurrent month: May 5, 2020", "Page 3", "",
+          "Securities Owned\nCombined in (USD)\nALLOCATION (%) MARKET VALUE ($)\n" + BULLET + " USD THING (UTH) 100.0 1,000.0\n100.0 1,000.0\nall figures Combined in (CAD) on page 8"]
 
 
 def gen_month_page(rng):
